@@ -48,7 +48,9 @@ Inductive case :=
 (* calls before Clone, then an interleaved schedule of calls on the original (false) and on the clone
    (true); what the original and the clone show after EVERY step.  Compared with the aliasing
    model (heap of overflow arrays), so a shared backing array diverges on the model's own terms. *)
-| CAlias (lenlim limit : Z) (ops1 : list op) (sched : list (bool * op)) (trace : list (obs * obs)).
+| CAlias (lenlim limit : Z) (ops1 : list op) (sched : list (bool * op)) (trace : list (obs * obs))
+(* one string attribute value under a value-length limit (the log copy of truncate) *)
+| CTrunc (lenlim : Z) (s out : bytes).
 
 Definition flag (b : bool) (code : N) : list N := if b then [] else [code].
 
@@ -104,6 +106,9 @@ Definition check_case (c : case) : list N :=
        | a, b => if forallb (fun c => 100 <? c) (a ++ b) then [V_KNOWN 1] else [V_SPECFAIL]
        end)
   | CAlias lenlim limit ops1 sched trace => check_alias lenlim limit ops1 sched trace
+  | CTrunc lenlim s out =>
+      flag (lvalue_eqb (fst (apply_value_limits lenlim (LStr s))) (LStr out)) V_MISMATCH ++
+      flag (lvalue_eqb (norm lenlim (LStr s)) (LStr out)) V_SPECFAIL
   end.
 
 Definition run (cs : list case) : list (N * N) := index_from 0 check_case cs.
